@@ -281,6 +281,12 @@ func (r *pRun) startRun() {
 			if panicked {
 				pv = fmt.Sprint(recover())
 			}
+			h.mu.Lock()
+			hung := r.ptyHung
+			h.mu.Unlock()
+			if r.ptyS != nil && !r.ptyInOnly && !hung {
+				h.out.SyncThrough(r.ptyS, 3*time.Second)
+			}
 			n := h.out.Len()
 			h.update(func() {
 				h.runDone = true
